@@ -299,7 +299,7 @@ pub fn check_stream(c: &StreamCase, st: &mut Stats) -> Result<(), String> {
     }
     let buf_len = 20 + c.buf as usize % 1200;
     let r = guard(|| -> Result<(), String> {
-        let mut dec = StunPacketDecoder::new(vec![0xA5; buf_len]).map_err(|_| "HARNESS-buffer refused".to_string())?;
+        let mut dec = StunPacketDecoder::new(super::c16::mk_buf(buf_len, 3)).map_err(|_| "HARNESS-buffer refused".to_string())?;
         let mut pos = 0usize;
         let mut ci = 0usize;
         let mut last_empty = false;
@@ -321,7 +321,7 @@ pub fn check_stream(c: &StreamCase, st: &mut Stats) -> Result<(), String> {
                             return Err(format!("decoded packet of {} bytes, consumed {} of {}", p.len(), consumed, chunk.len() - off));
                         }
                         off += consumed;
-                        dec = StunPacketDecoder::new(vec![0xA5; buf_len]).map_err(|_| "HARNESS-buffer refused".to_string())?;
+                        dec = StunPacketDecoder::new(super::c16::mk_buf(buf_len, 3)).map_err(|_| "HARNESS-buffer refused".to_string())?;
                         if off >= chunk.len() {
                             break;
                         }
